@@ -45,6 +45,10 @@ add("C20","E1 enum","exploration",
     "sqrt, sqrt_vartime, wrapping and checked forms and the SquareRoot trait on Uint<1,2,3,4,8,16> and BoxedUint 1..=20 limbs over ALL x < 2^17 (quick) / 2^20 (thorough) in every width plus t^2-1, t^2, t^2+1, t^2+t, t^2+2t for t = 2^j, 2^j+-1, +2, +3 for every j and structured half-width t, 2^BITS-1, neighbours of 2^(BITS-1) and values just above each power of four; result must be the unique s with s^2 <= x < (s+1)^2, checked forms some iff perfect square.",
     ASSUME, "bounded-exhaustive enumeration (complete low range + structured families) on the real code against BigUint::sqrt", "DESIGN.md §3.C20")
 
+add("C16","E5 codec + E1 enum","exploration",
+    "Byte/hex/array/word/serde/format routes of Uint<1,2,3,4,6,7,8,16,32>, Int, Limb, BoxedUint, NonZero, Odd, Wrapping, Checked: encoders compared with the positional formula, decoders must invert them; byte-position probes; hex decoders driven with ALL 256 byte values at each of the 32 positions of a U128 string and ALL 65536 two-character prefixes of a U64 string (invalid characters must be rejected, never decoded) and all lengths; BoxedUint::from_be/le_slice for EVERY precision 0..=520 x EVERY length 0..=precision/8+9 x content patterns incl. exactly 2^precision and 2^precision-1 (InputSize / Precision exactly as documented); primitives, concat/split/resize/widen/shorten.",
+    ASSUME + " Byte values per hex position and (precision, length) pairs are exhaustive.", "grammar/byte-exhaustive exploration of the real decoders against independent reference recognisers + shape-exhaustive round trips", "DESIGN.md §3.C16")
+
 NOT_YET = {}
 ALL = [f"C{i:02d}" for i in range(1,21)]
 import os, sys
